@@ -33,6 +33,7 @@ pub const SITE_POLL_EXISTS: u16 = 15;
 pub const SITE_NOW: u16 = 16;
 pub const SITE_BACKOFF: u16 = 17;
 pub const SITE_WAKE_ENTRY: u16 = 18;
+pub const SITE_REGISTER_WAKER: u16 = 19;
 
 #[cfg(not(kani))]
 pub mod std {
